@@ -157,6 +157,27 @@ class C07(object):
             except Exception as e:  # noqa
                 r.oracle_fail = 'after the chain %s validate() raised %s' % (case['chain'][:i + 1], type(e).__name__)
                 return
+            # dit.copypmf: the pmf alone, re-expressed in any base, in the three storage modes
+            dit = import_dit()
+            b2 = gen.BASES[(case['seed'] + i) % len(gen.BASES)]
+            for mode in ('asis', 'dense', 'sparse'):
+                arr = dit.copypmf(cur, base=b2, mode=mode)
+                if mode == 'asis':
+                    outs_m = list(cur.outcomes)
+                elif mode == 'dense':
+                    outs_m = list(cur.sample_space())
+                else:
+                    outs_m = [o for o, p in zip(cur.outcomes, cur.pmf) if not cur.ops.is_null(p)]
+                if len(arr) != len(outs_m):
+                    r.oracle_fail = 'copypmf(mode=%s) has %d entries for %d outcomes' % (mode, len(arr), len(outs_m))
+                    return
+                for o, v in zip(outs_m, arr):
+                    w = want.get(tuple(gen.from_py(o, klass)), 0.0)
+                    pl = gen.lin_of(float(v), b2)
+                    if not (abs(pl - w) <= 1e-12 + 1e-9 * w):
+                        r.oracle_fail = ('copypmf(base=%r, mode=%s) of a base-%r distribution: P(%s) = %r, originally %r'
+                                         % (b2, mode, cur.get_base(), list(gen.from_py(o, klass)), pl, w))
+                        return
         # the source is untouched by copy(base=)
         if gen.obs_py(d, klass)['base'] != case['base']:
             r.oracle_fail = 'copy(base=) changed the source'
@@ -189,6 +210,21 @@ class C07(object):
                 pairs.append(('condition_on%s conditional #%d' % (c, i), self.lin_table(a, klass), self.lin_table(b, klass)))
             pairs.append(('product_distribution', self.lin_table(dit.product_distribution(dl), klass),
                           self.lin_table(dit.product_distribution(d0), klass)))
+        # a single variable as a ScalarDistribution (both extraction modes) keeps base and probabilities
+        from dit.convert import DtoSD
+        i0 = int(rs.randint(n))
+        for extract in (True, False):
+            sl, s0 = DtoSD(dl.marginal([i0]), extract), DtoSD(d0.marginal([i0]), extract)
+            if sl.get_base() != base:
+                r.oracle_fail = 'DtoSD(extract=%s) of a base-%s distribution has base %r' % (extract, base, sl.get_base())
+                return
+            ta = {repr(o): gen.lin_of(v, sl.get_base()) for o, v in zip(sl.outcomes, sl.pmf)}
+            tb = {repr(o): float(v) for o, v in zip(s0.outcomes, s0.pmf)}
+            for o in set(ta) | set(tb):
+                if not (abs(ta.get(o, 0.0) - tb.get(o, 0.0)) <= 1e-12 + 1e-9 * tb.get(o, 0.0) or abs(tb.get(o, 0.0)) <= 1e-8):
+                    r.oracle_fail = 'DtoSD(extract=%s): P(%s) = %r from the base-%s distribution, %r from its linear copy' % (
+                        extract, o, ta.get(o, 0.0), base, tb.get(o, 0.0))
+                    return
         # mixture with a second distribution on the same outcomes
         w = [0.25, 0.75]
         other = dict(case)
